@@ -160,6 +160,24 @@ AsciiConsistent(t) ==
               IsAscii(t.repls[i].c) /\ t.repls[i].s <= t.repls[i].e
     [] t.k \in {"cached", "box"} -> AsciiConsistent(t.inner)
 
+(* C08's domain: segments sorted, on characters of the text or zero-width   *)
+(* at the end of a line / of the text, indices inside the tables            *)
+MapFitsText(map, text) ==
+  LET segs == DecodeMappings(map.m)
+      ls == Lines(text)
+  IN /\ WellFormedMappings(map.m)
+     /\ StrictlySortedSegs(segs)
+     /\ \A i \in 1..Len(segs) :
+          /\ \/ (segs[i].gl >= 1 /\ segs[i].gl <= Len(ls) /\ segs[i].gc <= Len(ls[segs[i].gl]))
+             \/ <<segs[i].gl, segs[i].gc>> = EndPos(text)
+          /\ segs[i].si < Len(map.sources) /\ segs[i].ni < Len(map.names)
+          /\ segs[i].si >= 0 => segs[i].ol >= 1
+
+IsMapLeaf(t) ==
+  \/ (t.k = "sms" /\ t.inner = <<>>)
+  \/ (t.k = "default" /\ t.map # <<>>)
+LeafMap(t) == IF t.k = "sms" THEN t.map ELSE t.map[1]
+
 (* every (file name, has content, content) a tree can announce: the domain  *)
 (* of C04 / C06 requires that a name shared between leaves carries the same *)
 (* content everywhere                                                       *)
@@ -186,4 +204,79 @@ TreeFileEntries(t) ==
 SharedNamesAgreeInTree(t) ==
   LET all == TreeFileEntries(t)
   IN \A x \in all : \A y \in all : x[1] = y[1] => x = y
+
+-----------------------------------------------------------------------------
+(* Byte provenance (property C04), independent of any chunking: every byte  *)
+(* of Text(t) is a copy of a byte of an OriginalSource text (file, line,    *)
+(* column), raw text, or replacement content.                               *)
+PRaw == [k |-> "raw", f |-> <<>>, l |-> 0, c |-> 0]
+PRepl == [k |-> "repl", f |-> <<>>, l |-> 0, c |-> 0]
+POrig(f, l, c) == [k |-> "orig", f |-> f, l |-> l, c |-> c]
+
+RECURSIVE Prov(_)
+Prov(t) ==
+  CASE t.k = "orig" ->
+         LET pt == PosTable(t.b)
+         IN [i \in 1..Len(t.b) |-> POrig(t.name, pt[i][1], pt[i][2])]
+    [] t.k = "concat" ->
+         LET ch == Children(t) IN Concat([i \in 1..Len(ch) |-> Prov(ch[i])])
+    [] t.k = "replace" ->
+         LET ip == Prov(t.inner)
+             sp == SpliceProv(Len(ip), t.repls)
+         IN [b \in 1..Len(sp) |-> IF sp[b].k = "in" THEN ip[sp[b].j] ELSE PRepl]
+    [] t.k \in {"cached", "box"} -> Prov(t.inner)
+    [] OTHER -> [i \in 1..Len(TextOf(t)) |-> PRaw]
+
+(* The documented splitting rule of OriginalSource,                         *)
+(*   /[^\n;{}]+[;{} \r\t]*\n?|[;{} \r\t]+\n?|\n/                          *)
+(* as positions: a statement starts at the start of a line's text or after  *)
+(* a run of ; { } with the blanks mixed into or following it.               *)
+IsSepByte(b) == b \in {59, 123, 125}
+IsTailByte(b) == b \in {59, 123, 125, 32, 13, 9}
+
+RECURSIVE SkipBody(_, _)
+SkipBody(t, i) ==
+  IF i > Len(t) \/ t[i] = NL \/ IsSepByte(t[i]) THEN i ELSE SkipBody(t, i + 1)
+RECURSIVE SkipTail(_, _)
+SkipTail(t, i) == IF i <= Len(t) /\ IsTailByte(t[i]) THEN SkipTail(t, i + 1) ELSE i
+
+TokenEnd(t, i) ==
+  LET b == SkipTail(t, SkipBody(t, i))
+  IN IF b <= Len(t) /\ t[b] = NL THEN b + 1 ELSE b
+
+RECURSIVE TokenStartsFrom(_, _)
+TokenStartsFrom(t, i) ==
+  IF i > Len(t) THEN {} ELSE {i} \cup TokenStartsFrom(t, TokenEnd(t, i))
+
+(* 1-based byte indices that begin a statement (a lone line break is no     *)
+(* statement)                                                               *)
+StatementStarts(t) == {i \in TokenStartsFrom(t, 1) : t[i] # NL}
+
+(* per output byte: does it begin a statement of its OriginalSource?        *)
+RECURSIVE StmtFlags(_)
+StmtFlags(t) ==
+  CASE t.k = "orig" ->
+         LET ss == StatementStarts(t.b) IN [i \in 1..Len(t.b) |-> i \in ss]
+    [] t.k = "concat" ->
+         LET ch == Children(t) IN Concat([i \in 1..Len(ch) |-> StmtFlags(ch[i])])
+    [] t.k = "replace" ->
+         LET ip == StmtFlags(t.inner)
+             sp == SpliceProv(Len(ip), t.repls)
+         IN [b \in 1..Len(sp) |-> IF sp[b].k = "in" THEN ip[sp[b].j] ELSE FALSE]
+    [] t.k \in {"cached", "box"} -> StmtFlags(t.inner)
+    [] OTHER -> [i \in 1..Len(TextOf(t)) |-> FALSE]
+
+RECURSIVE CachedUnderReplace(_)
+CachedUnderReplace(t) ==
+  CASE t.k = "replace" -> "cached" \in Kinds(t.inner) \/ CachedUnderReplace(t.inner)
+    [] t.k = "concat" ->
+         LET ch == Children(t) IN \E i \in 1..Len(ch) : CachedUnderReplace(ch[i])
+    [] t.k \in {"cached", "box"} -> CachedUnderReplace(t.inner)
+    [] OTHER -> FALSE
+
+C04Domain(t) ==
+  /\ Kinds(t) \subseteq {"raw", "orig", "concat", "replace", "cached", "box"}
+  /\ AsciiConsistent(t)
+  /\ ~CachedUnderReplace(t)
+  /\ SharedNamesAgreeInTree(t)
 =============================================================================
